@@ -526,3 +526,156 @@ class MiniShardClose(_InvUnit):
 
     def check_raise(self, c, exc, b, cfg):
         c.prove(f"never-raises-under-INV:{type(exc).__name__}", False, kind="exc")
+
+
+# --------------------------------------------------------------------------- consequences of INV (no code involved)
+
+def _abstract_state(c, G, tag, masked, offset):
+    """an arbitrary MiniShard state as a WState-like record (no object needed)"""
+    from neuroglancer_scripts.sharded_file_accessor import MiniShard
+    obj = SObj(MiniShard, {"_offset": offset, "masked_bits": masked})
+    return obj, fresh_state(c, G, obj, tag)
+
+
+def _empty_buffer_fact(c, st, k):
+    c.assume(implies(st.buffer.has(SU64(k)), st.buffer.card >= 1))        # a key is a member: the map is not empty
+
+
+@register
+class ClosedStateIsDetermined(Lemma):
+    """Two closed minishards (INV, empty buffer) that hold the same stored map (same ghost P, S) have the
+    same number of entries, the same header words and the same data bytes: the bytes a MiniShard hands to
+    Shard.close are a function of WHAT was stored, not of the order of the stores nor of the container
+    classes used for buffering.  (Each state satisfies INV by the contracts of store_cmc_chunk /
+    flush_buffer / close above; this lemma is pure logic over INV.)"""
+    name = "lemma:closed-minishard-is-a-function-of-the-stored-map(order-and-strategy-independence)"
+    props = ("C05",)
+    timeout_ms = 60000
+
+    def run(self, c, cfg):
+        spec = mk_shard_spec(c, bits_bound=65)
+        a = spec.attrs
+        c.assume(SBool(z3.ULE(a["preshift_bits"].t + a["shard_bits"].t + a["minishard_bits"].t, BV64(64))))
+        masked = c.u64("masked_bits", inp=True)
+        offset = c.u64("_offset", inp=True)
+        G = Ghost(c, spec, masked)
+        c.assume(SBool((G.field & masked.t) == masked.t))
+        _, A = _abstract_state(c, G, "_A", masked, offset)
+        _, B = _abstract_state(c, G, "_B", masked, offset)
+        nA, nB = G.pair(c, A.nbv.t), G.pair(c, B.nbv.t)
+        c.assume(And(A.buffer.card == 0, B.buffer.card == 0))
+        i, k, j = mk_skolems(c, "")
+        sk = (i, k, j)
+        for st, n in ((A, nA), (B, nB)):
+            standard_points(c, G, st, sk)
+        # INV of both states at the skolems and at each other's last entry
+        for st, other_n in ((A, nB), (B, nA)):
+            n = G.pair(c, st.nbv.t)
+            kk = G.id_at(other_n - 1)
+            assume_inv(c, G, st, sk, extra_keys=(kk, G.id_at(n)), extra_entries=(n - 1, other_n - 1))
+            _empty_buffer_fact(c, st, kk)
+            _empty_buffer_fact(c, st, k)
+        c.prove("same-number-of-entries", nA == nB)
+        c.prove("same-header-length", A.header.shape[0] == B.header.shape[0])
+        w = c.int("w", inp=True)
+        for r_, nm in ((0, "id-delta"), (1, "offset"), (2, "size")):
+            c.prove(f"same-header-word:{nm}", implies(And(i >= 0, i < nA), A.header.elem(3 * i + r_) == B.header.elem(3 * i + r_)))
+        c.prove("same-data-length", A.data.len == B.data.len)
+        c.prove("same-data-bytes(entry i, byte j)",
+                implies(And(i >= 0, i < nA, j >= 0, j < G.S_len(G.id_at(i))), A.data.fn(G.PS(i) + j) == B.data.fn(G.PS(i) + j)))
+        c.prove("entry-ids-strictly-increasing(delta != 0 after the first)",
+                implies(And(i >= 1, i < nA), Not(A.header.elem(3 * i) == SU64(BV64(0)))))
+
+
+# --------------------------------------------------------------------------- a store keeps INV (for the updated stored map)
+
+def with_store(c, G, cmc, enc, n):
+    """ghost after storing `enc` under id cmc (an id of the class at or after ID(n)): S' = S[cmc := enc],
+    P' = P + {cmc}; PS' are the prefix sums of S' -- equal to PS up to entry n because the entries before
+    ID(n) are untouched (prefix-sum frame lemma, induction on the entry number: ASSUMED)"""
+    import copy
+    G2 = copy.copy(G)
+    G2.PSf = z3.Function("PS_after_store", z3.IntSort(), z3.IntSort())
+    old_len, old_byte, old_P = G.S_len, G.S_byte, G.P
+    G2.S_len = lambda k: ite(SBool(k == cmc), enc.len, old_len(k))
+    G2.S_byte = lambda k, j: ite(SBool(k == cmc), enc.fn(j), old_byte(k, j))
+    G2.P = lambda k: Or(SBool(k == cmc), old_P(k))
+
+    def frame(q):
+        c.assume(implies(And(q >= 0, q <= n), G2.PS(q) == G.PS(q)))
+    G2.frame = frame
+    return G2
+
+
+@register
+class StoreBufferedKeepsInv(Lemma):
+    """the 'kept in the buffer' outcome of store_cmc_chunk (its effect is given by the MiniShardStore contract:
+    buffer' == buffer[cmc := encoded chunk], nothing else changes) keeps INV for S' = S[cmc := encoded]"""
+    name = "lemma:store(buffered)-keeps-INV-for-the-updated-stored-map"
+    props = ("C05",)
+    timeout_ms = 60000
+
+    def run(self, c, cfg):
+        obj, st, G = mk_inv_minishard(c)
+        n = G.pair(c, st.nbv.t)
+        cmc = c.u64("cmc", inp=True).t
+        enc = SBytes.fresh(c, "encoded")
+        c.assume(enc.len < (1 << 50))
+        c.assume(And(G.in_class(cmc), SBool(z3.UGT(cmc, G.id_at(n)))))
+        G2 = with_store(c, G, cmc, enc, n)
+        sk = mk_skolems(c, "")
+        i, k, j = sk
+        standard_points(c, G, st, sk)
+        assume_inv(c, G, st, sk, extra_keys=(cmc, G.id_at(n)), extra_entries=(n - 1,))
+        # the new state: only the buffer changed
+        obj.attrs["_chunk_buffer"].setitem(SU64(cmc), enc)
+        st2 = WState(obj)
+        for q in (i, i + 1, n, n - 1, n + 1):
+            G2.frame(q)
+        standard_points(c, G2, st2, sk)
+        # ids below ID(n) are below cmc: strictly increasing enumeration (pairs carry the order facts)
+        prove_inv(c, G2, st2, sk, "INV'")
+
+
+@register
+class AppendNextKeepsInv(_InvUnit):
+    """MiniShard.append(encoded, cmc) for cmc == ID(n), not buffered: the real append body takes a state
+    satisfying INV(S) to a state satisfying INV(S[cmc := encoded]) -- the 'appended' outcome of
+    store_cmc_chunk before its flush_buffer call"""
+    target = SF + "MiniShard.append"
+    name = "MiniShard.append[next id, under INV]"
+
+    def setup(self, c, cfg):
+        self.setup_common(c)
+        G, st = self.G, self.st0
+        n = G.pair(c, st.nbv.t)
+        G.succ(c, st.nbv.t)
+        self.cmc = SU64(G.nxt(st.nbv.t))
+        self.enc = SBytes.fresh(c, "encoded")
+        c.assume(self.enc.len < (1 << 50))
+        c.assume(Not(st.buffer.has(self.cmc)))
+        c.assume(G.room(st.nbv.t + 1))
+        return (self.obj, self.enc, self.cmc), {}
+
+    def ensures(self, c, result):
+        G, st = self.G, self.st0
+        n = G.pair(c, st.nbv.t)
+        G2 = with_store(c, G, self.cmc.t, self.enc, n)
+        sk = mk_skolems(c, "_q")
+        i, k, j = sk
+        standard_points(c, G, st, sk)
+        assume_inv(c, G, st, sk, extra_keys=(self.cmc.t, G.id_at(n)), extra_entries=(n - 1,))
+        G.successor_fact(c, k, st.nbv.t)
+        st2 = WState(self.obj)
+        for q in (i, i + 1, n, n - 1):
+            G2.frame(q)
+        standard_points(c, G2, st2, sk)
+        G2.ps_facts(c, n)
+        for name, cond in inv_instances(c, G2, st2, *sk):
+            if name.startswith(("H:id", "H:off", "H:size", "D:entry")):
+                yield (f"INV':{name}[older entries]", implies(i < n, cond))
+                yield (f"INV':{name}[the new entry]", implies(i == n, cond))
+            yield ("INV':" + name, cond)
+
+    def check_raise(self, c, exc, b, cfg):
+        c.prove(f"never-raises:{type(exc).__name__}", False, kind="exc")
